@@ -347,7 +347,7 @@ fn tournament_config(n: usize, k: usize, pname: &str, vals: &[i64], draws: u64, 
 /// a few (1, 2, 7) or all: the winner beats at least k-1 others - with k = n-1 it is the best or
 /// the second best - and the selection answers in time that does not grow with the square of n.
 fn large_populations(seed: u64, rep: &mut Report) {
-    for n in [5_000usize, 100_000] {
+    for n in [5_000usize, 500_000] {
         let mut g = Xo::derive(seed, "C07-large", n as u64);
         // distinct values in a scrambled order
         let mut vals: Vec<u64> = (0..n as u64).collect();
